@@ -156,15 +156,17 @@ def run(chk) -> None:
         "python": ["assign", "callArg", "returnExpr", "defaultParam", "arrayElem", "mapValue", "binop", "compare",
                    "index", "twoOnLine", "classAttr", "kwArg", "tupleElem", "rangeArg", "enumerateArg", "strRepeat",
                    "upperConst", "annUpperConst", "nestedFunc", "fstringInterp", "lambdaBody", "ternary", "comprehension",
-                   "sliceBound", "unaryMinus"],
+                   "sliceBound", "unaryMinus", "upperCallArg", "upperFuncBody"],
         "typescript": ["assign", "callArg", "returnExpr", "defaultParam", "arrayElem", "mapValue", "binop", "compare",
                        "index", "twoOnLine", "classAttr", "upperConst", "enumMember", "lowerConst", "templateInterp",
-                       "arrowBody", "ternary"],
+                       "arrowBody", "ternary", "upperCallArg", "upperFuncBody"],
         "rust": ["assign", "callArg", "returnExpr", "arrayElem", "mapValue", "binop", "compare", "index", "twoOnLine",
                  "constItem", "staticItem", "letBinding", "testFn"],
     }
     few = {"upperConst", "annUpperConst", "constItem", "staticItem", "enumMember", "enumDiscriminant"}
-    items = {l: [(s, v) for s in ss for v in range(1, 10) if (v != 8 or l == "rust") and (s not in few or v in (2, 3, 4))]
+    one = {"upperCallArg", "upperFuncBody"}
+    items = {l: [(s, v) for s in ss for v in range(1, 10) if (v != 8 or l == "rust") and (s not in few or v in (2, 3, 4))
+                 and (s not in one or v == 2)]
              for l, ss in slots.items()}
     for c in cases:   # cross-check the mirror against TLC: every expected item must be in the mirrored universe
         for e in c["expected"]:
